@@ -25,7 +25,8 @@ NCPU = int(os.environ.get("VERIF_JOBS", "16"))
 
 SAN_ENV = {
     "ASAN_OPTIONS": "abort_on_error=1:detect_leaks=0:allocator_may_return_null=1:handle_abort=1:"
-                    "detect_stack_use_after_return=0:symbolize=1:max_malloc_fill_size=0:malloc_context_size=5",
+                    "detect_stack_use_after_return=0:symbolize=1:max_malloc_fill_size=0:malloc_context_size=5:"
+                    "max_allocation_size_mb=6000:hard_rss_limit_mb=7000",
     "UBSAN_OPTIONS": "print_stacktrace=1:halt_on_error=1:abort_on_error=1",
     "TSAN_OPTIONS": "halt_on_error=0:ignore_noninstrumented_modules=1:second_deadlock_stack=1:exitcode=0",
 }
@@ -70,6 +71,11 @@ def first_repo_frame(text, repo="/repo/"):
 
 def crash_key(stderr_text, retcode):
     t = stderr_text
+    # Memory exhaustion is not a sanitizer finding: in an uninstrumented build an absurd request makes operator new throw
+    # std::bad_alloc (a std::exception, i.e. a pass); ASan cannot return null from a throwing new and aborts instead.
+    if re.search(r"AddressSanitizer: (allocator is out of memory|requested allocation size|hard rss limit exhausted|out of memory)", t) or \
+       re.search(r"SUMMARY: AddressSanitizer: (out-of-memory|allocation-size-too-big|rss-limit-exceeded)", t):
+        return "toollimit:memory"
     m = re.search(r"ERROR: AddressSanitizer: (\S+)", t)
     if m and m.group(1) != "ABRT":
         kind = m.group(1)
@@ -263,6 +269,14 @@ def run_stage(pid, stage, tier, seed, workdir, replay_case=None):
                 local["inconclusive"].append("stage %s shard %d: worker failed outside a case (rc=%s): %s" % (name, shard, rc, err[-400:]))
                 return local
             key = crash_key(err, rc if isinstance(rc, int) else None)
+            if key.startswith("toollimit:"):
+                local["toollimit"] = local.get("toollimit", 0) + 1
+                local["restarts"] += 1
+                if local["restarts"] > 10 * stage.get("max_restarts", 40):
+                    local["inconclusive"].append("stage %s shard %d: too many tool-limit restarts" % (name, shard))
+                    return local
+                start = j + 1
+                continue
             if crash_mode == "violation":
                 local["violations"].append(_crash_violation(pid, stage, seed, tier, j, key, (err[:4000] + "\n[...]\n" + err[-12000:]) if len(err) > 16000 else err, _note(outdir, shard), outdir, shard, extra))
             else:
@@ -301,6 +315,7 @@ def run_stage(pid, stage, tier, seed, workdir, replay_case=None):
             res.violations += local["violations"]
             res.inconclusive += local["inconclusive"]
             res.restarts += local["restarts"]
+            res.toollimit = getattr(res, "toollimit", 0) + local.get("toollimit", 0)
             for key, blk in local["tsan"]:
                 p = os.path.join(outdir, "tsan_%d.txt" % len(res.violations))
                 open(p, "w").write("property: %s\nkey: %s\nstage: %s\nseed: %s\ntier: %s\n--- report ---\n%s\n" % (pid, key, stage.get("id", name), seed, tier, blk))
@@ -417,7 +432,7 @@ def main(argv):
                     samples.append({"stage": sid, "case": x})
         counters, maxima, cover, vc = merge_cover(r.summaries)
         stage_info.append({"stage": sid, "harness": st["harness"], "flavour": st.get("flavour", "plain"), "evaluations": ev,
-                           "wall_s": round(r.wall, 1), "worker_restarts_after_crash": r.restarts,
+                           "wall_s": round(r.wall, 1), "worker_restarts_after_crash": r.restarts, "cases_ended_by_memory_limit_of_the_sanitizer_runtime": getattr(r, "toollimit", 0),
                            "counters": counters, "maxima": maxima, "cover": compact_cover(cover), "violation_counts": vc})
         all_viol += r.violations
         inconclusive += r.inconclusive
